@@ -39,7 +39,7 @@ func runC15(p *core.Prog, r *core.Report) {
 	r.Explain = "Decides the order of cross-component steps on every CFG path (a stop between two steps leaves only states in which listed objects are readable): Shard.Put indexes the object in the metabase only after the write-cache or the blob storage accepted its bytes; the write-cache removes an object (flushSingle, flushBatch) only after the main storage's Put/PutBatch returned nil; Shard.deleteObjs removes bytes from the blob storage only after the metabase delete that unlists them returned nil, and the write-cache copies of linked children only after it too; Shard.MarkGarbage drops the cached copy only after the metabase mark succeeded. Not covered: enumeration of stop points, torn bbolt commits, and the order write-cache-delete → metabase-delete at the start of deleteObjs (either order has a crash window: the existing one can leave a listed-but-unreadable object for addresses the metabase still reports available, the opposite one can resurrect a removed object through a later flush; recorded in DESIGN.md as an observation, not claimed)."
 	r1 := r.Rule("C15.R1", "Shard.Put: metabase PutCounted only after write-cache Put or blob storage Put returned nil", 1)
 	core.CheckEffects(p, r1, core.EffectRule{Fn: shardT + ".Put", Min: 1,
-		Guards: []core.Guard{core.G("write-cache-put-ok", core.ErrNil, wcI+".Put"), core.G("blobstor-put-ok", core.ErrNil, storI+".Put")},
+		Guards:  []core.Guard{core.G("write-cache-put-ok", core.ErrNil, wcI+".Put"), core.G("blobstor-put-ok", core.ErrNil, storI+".Put")},
 		Derived: []core.Derived{{Name: "bytes-stored", Alts: [][]string{{"write-cache-put-ok"}, {"blobstor-put-ok"}}}},
 		Effect:  core.CallTo(mbT+".PutCounted", mbT+".Put", mbT+".PutBatch"),
 		Need:    func(string) []string { return []string{"bytes-stored"} }})
@@ -148,7 +148,9 @@ func runC16(p *core.Prog, r *core.Report) {
 		wcCall := func(s core.Site) bool { // wc(s.writeCache): dynamic call of the 4th parameter
 			return s.Name == "dynamic" && core.ParamIndex(s.Fn, s.Call.Common().Value) == 4
 		}
-		stCall := func(s core.Site) bool { return s.Name == "dynamic" && core.ParamIndex(s.Fn, s.Call.Common().Value) == 3 }
+		stCall := func(s core.Site) bool {
+			return s.Name == "dynamic" && core.ParamIndex(s.Fn, s.Call.Common().Value) == 3
+		}
 		g := []core.Guard{
 			{Name: "blobstor-consulted", Match: stCall, Comps: []core.Comp{{Result: -1, Kind: core.Executed}}},
 			{Name: "write-cache-answered", Match: wcCall, Comps: []core.Comp{{Result: -1, Kind: core.ErrNil, Accept: []string{"github.com/nspcc-dev/neofs-sdk-go/client/status.ErrObjectOutOfRange"}}}},
